@@ -321,7 +321,7 @@ def work_corpus(item):
     mc = mcx.worker_mc()
     setup = [["rules_dir", mcx.RULES]] + prefs
     ops = [[["mathml", terms.doc(t)], ["navstate"], ["navid"], ["getpref", "NavMode"], ["getpref", "Overview"]] + [op for c in WALK for op in [["nav", c]] + OBS] for _, t in cases]
-    _, res = mc.run_cases(setup, ops)
+    _, res = mc.run_cases(setup, ops, fresh=True)          # a session per term: every report replays on its own
     viol, counts, outcomes = [], {"corpus_walks": 0, "corpus_transitions": 0, "skipped_panics": 0}, set()
     for (label, t), r in zip(cases, res):
         if not is_ok(r[0]) or not is_ok(r[1]) or not is_ok(r[2]):
